@@ -368,7 +368,7 @@ func rowString(rw row) string {
 //	delta: named, and every dump after the first is `upd <previous dump> <rows
 //	       that disappeared> <rows that appeared>`; vm_compute rebuilds the full
 //	       sorted dump before run_chain compares it
-func emit(path, ident string, sc *scen.Scenario, blocks []string, obs []*obsRec, format string) (int64, error) {
+func emit(path, ident string, sc *scen.Scenario, blocks []string, obs []*obsRec, format string, apiCases, apiStatus []string) (int64, error) {
 	s := sc.Schedule
 	var body strings.Builder
 	fmt.Fprintf(&body, "Definition cfg_%s : cfg := {| c_PegnetActivation := %d; c_GradingV2Activation := %d; c_TransactionConversionActivation := %d; "+
@@ -430,6 +430,8 @@ func emit(path, ident string, sc *scen.Scenario, blocks []string, obs []*obsRec,
 		obsLines = append(obsLines, fmt.Sprintf("  {| o_ok := %s; o_rows := %s |}", coqBool(o.ok), rows))
 	}
 	fmt.Fprintf(&body, "Definition obs_%s : list obs := [\n%s\n].\n", ident, strings.Join(obsLines, ";\n"))
+	fmt.Fprintf(&body, "Definition api_%s : list (hq * Z * list (hash * Z)) := [\n%s\n].\n", ident, strings.Join(apiCases, ";\n"))
+	fmt.Fprintf(&body, "Definition status_%s : list (hash * Z * Z) := [\n%s\n].\n", ident, strings.Join(apiStatus, ";\n"))
 	fmt.Fprintf(&body, "Definition R_%s := Eval vm_compute in run_chain cfg_%s genesis empty_cache chain_%s obs_%s.\n", ident, ident, ident, ident)
 	fmt.Fprintf(&body, "Print R_%s.\n", ident)
 
@@ -461,7 +463,7 @@ func emit(path, ident string, sc *scen.Scenario, blocks []string, obs []*obsRec,
 	for _, n := range sc.Notes {
 		fmt.Fprintf(w, "(* %s *)\n", strings.NewReplacer("(*", "( *", "*)", "* )").Replace(n))
 	}
-	fmt.Fprintf(w, "From Model Require Import Obs.\nOpen Scope Z_scope.\n")
+	fmt.Fprintf(w, "From Model Require Import Api.\nFrom Model Require Import Obs.\nOpen Scope Z_scope.\n")
 	if format == "delta" {
 		// the rows of [old] that are not in [del], merged with the sorted [add]
 		fmt.Fprintf(w, "Definition upd (old del add : list row) : list row :=\n  merge_rows (filter (fun r => negb (existsb (list_Z_eqb r) del)) old) add.\n")
